@@ -36,6 +36,7 @@ def mc_ops():
         {"e": "OpenBank", "b": 1, "bad": 0}, {"e": "OpenBank", "b": 2, "bad": 0}, {"e": "OpenBank", "b": 1, "bad": 1},
         {"e": "OpenMidi", "s": 1, "bad": 0}, {"e": "OpenMidi", "s": 2, "bad": 0}, {"e": "OpenMidi", "s": 1, "bad": 1},
         {"e": "OpenMidi", "s": 3, "bad": 0},
+        {"e": "OpenMidi", "s": 4, "bad": 0}, {"e": "OpenMidi", "s": 7, "bad": 5},
         V("SwitchEmulator", 7),
     ]
 
@@ -88,6 +89,9 @@ def all_single_calls(dumper=True):
     out += [{"e": "OpenBank", "b": b, "bad": bad} for b in (1, 2, 3) for bad in (0, 1, 2, 3) if b == 1 or bad == 0]
     out += [{"e": "OpenMidi", "s": s, "bad": bad} for s in (1, 2) for bad in (0, 1, 2, 3, 4, 5) if s == 1 or bad == 0]
     out += [{"e": "OpenMidi", "s": 3, "bad": bad} for bad in (0, 4)]      # the EA-MUS song (locks the set-up) / its signature broken
+    # the other containers: GMF and DMX MUS songs (plain MIDI mode), the IMF image (sniffed, parsed, refused like the CMF one);
+    # the XMIDI song (s = 6) only appears in format_sequences (selecting a song number while it is loaded re-parses the file)
+    out += [GMF, MUS, IMF_REFUSED]
     return out
 
 
@@ -105,6 +109,11 @@ def is_invalid(c):
         return c["bad"] != 0
     return False
 
+
+# music files by container (Settings!Song): 1, 2 SMF, 3 EA-MUS, 4 GMF, 5 DMX MUS, 6 XMIDI, 7 IMF (refused: bad = 5)
+SMF1, SMF2 = {"e": "OpenMidi", "s": 1, "bad": 0}, {"e": "OpenMidi", "s": 2, "bad": 0}
+GMF, MUS, XMI = {"e": "OpenMidi", "s": 4, "bad": 0}, {"e": "OpenMidi", "s": 5, "bad": 0}, {"e": "OpenMidi", "s": 6, "bad": 0}
+IMF_REFUSED, CMF_REFUSED = {"e": "OpenMidi", "s": 7, "bad": 5}, {"e": "OpenMidi", "s": 1, "bad": 5}
 
 PRELUDES = {
     "bare": [],
@@ -184,6 +193,54 @@ def locked_histories(rng=None, n=None):
     return hs
 
 
+FIRST_FILES = [{"e": "OpenMidi", "s": 3, "bad": 0}, IMF_REFUSED, CMF_REFUSED, XMI, SMF1, SMF2, GMF, MUS, {"e": "OpenMidi", "s": 1, "bad": 1}]
+LATER_FILES = [GMF, MUS, XMI, SMF1, {"e": "OpenMidi", "s": 3, "bad": 0}]
+SEQ_SETUPS = [[{"e": "OpenBank", "b": 1, "bad": 0}, V("SetNumChips", 4)],
+              [{"e": "OpenBank", "b": 3, "bad": 0}, V("SetNumChips", 3), V("SetVolModel", 3)],
+              [{"e": "OpenBank", "b": 2, "bad": 0}, V("SetVolModel", 5), V("SetRunAtPcm", 1)],
+              [{"e": "OpenBank", "b": 1, "bad": 0}, V("SetNumChips", 1), V("SetLoop", 1), V("SetLoopCount", 2), {"e": "SetHook", "h": "note", "on": 1}]]
+SEQ_BETWEEN = [V("SetNumChips", 3), V("SetNumChips", 4), V("SetNumChips", 1), V("SetNumChips", 0), V("SetVolModel", 2), V("SetVolModel", 4),
+               V("SetVolModel", 0), V("SetRunAtPcm", 1), V("SetRunAtPcm", 0), V("SetLfo", 0), V("SetLfoFreq", 5), V("SetSoftPan", 1),
+               V("SetDevId", 7), V("SetLoop", 1), V("SetHooksOnly", 0), {"e": "Reset"}, V("SwitchEmulator", 1),
+               {"e": "SetHook", "h": "raw", "on": 1}, {"e": "TrackOpt", "t": 0, "o": 1}, {"e": "ChanEn", "c": 0, "en": 1},
+               {"e": "SetTempo", "num": 2, "den": 1}]
+# the setters whose effect the EA-MUS lock defers: made right after the later file they must be in force at once
+SEQ_AFTER = [[V("SetVolModel", 3), V("SetNumChips", 3)], [V("SetNumChips", 2), V("SetVolModel", 0)], [V("SetVolModel", 2), V("SetRunAtPcm", 1)],
+             [V("SetNumChips", 4)], [V("SetVolModel", 5), V("SetNumChips", 1)], []]
+
+
+def format_sequences(rng, variants=1, triples=20):
+    """Two or three music files of different containers handed to ONE instance: every (first, later) pair of
+    {EA-MUS, refused IMF, refused CMF, XMIDI, SMF, GMF, MUS, garbage} x {GMF, MUS, XMIDI, SMF, EA-MUS}, setters and getters
+    (every call is followed by the observation of all getters) before, between and after the loads, probes and playback of
+    the later song; `triples` sequences go on to a third file.  variants: histories per pair (different set-up, calls between)."""
+    hs = []
+    k = 0
+
+    def between(n):
+        return [rng.choice(SEQ_BETWEEN) for _ in range(n)]
+
+    def after(second):
+        # opn2_setRunAtPcmRate etc. are judged by stick / locked-stick according to the lock the LATER file dictates
+        return list(SEQ_AFTER[rng.randrange(len(SEQ_AFTER))])
+    for v in range(variants):
+        for f1 in FIRST_FILES:
+            for f2 in LATER_FILES:
+                k += 1
+                h = [INIT] + SEQ_SETUPS[(k + v) % len(SEQ_SETUPS)] + [f1] + between((k + v) % 3)
+                if k % 4 == 0:
+                    h.append(PROBE)
+                h += [f2] + after(f2) + [PROBE, PLAY]
+                hs.append(h)
+    pool3 = [(a, b, c) for a in FIRST_FILES for b in LATER_FILES + [IMF_REFUSED, CMF_REFUSED] for c in LATER_FILES[:4]]
+    rng.shuffle(pool3)
+    for (a, b, c) in pool3[:triples]:
+        k += 1
+        hs.append([INIT] + SEQ_SETUPS[k % len(SEQ_SETUPS)] + [a] + between(k % 2) + [b] + between((k + 1) % 2) + after(b) +
+                  [c] + after(c) + [PROBE, PLAY])
+    return hs
+
+
 def exhaustive_pairs(rng, n):
     """Pairs (invalid call, second call) after the 'song' prelude (one in five: with the set-up locked by the EA-MUS song):
     sampled without replacement from the full product."""
@@ -222,7 +279,9 @@ def random_call(rng, p_invalid=0.35):
         return {"e": "Reset"}
     if r < 0.94:
         return {"e": "OpenBank", "b": rng.choice([1, 2, 3]), "bad": rng.choice([1, 2, 3]) if rng.random() < p_invalid else 0}
-    return {"e": "OpenMidi", "s": rng.choice([1, 2, 3, 3]), "bad": rng.choice([1, 2, 3, 4, 5, 5]) if rng.random() < p_invalid else 0}
+    if rng.random() < p_invalid:
+        return dict(IMF_REFUSED) if rng.random() < 0.2 else {"e": "OpenMidi", "s": rng.choice([1, 2, 3, 3]), "bad": rng.choice([1, 2, 3, 4, 5, 5])}
+    return {"e": "OpenMidi", "s": rng.choice([1, 2, 3, 3, 4, 5]), "bad": 0}
 
 
 def random_history(rng, length=14):
@@ -247,7 +306,7 @@ def random_history(rng, length=14):
     if not have_bank:
         h.append({"e": "OpenBank", "b": rng.choice([1, 2, 3]), "bad": 0})
     if pending_reload or rng.random() < 0.5:
-        h.append({"e": "OpenMidi", "s": rng.choice([1, 2]), "bad": 0})
+        h.append({"e": "OpenMidi", "s": rng.choice([1, 2, 1, 2, 4, 5]), "bad": 0})
     h += [PROBE, PLAY]
     return h
 
